@@ -219,5 +219,60 @@ def setBoundaries (shape : List Nat) (rank : Nat) (specs : List (AxisSpec K)) (a
     List Int → K :=
   setGhostAll (boundaryFaces shape rank specs) a
 
+/-! ### linked values (`ConstBCBase.link_value`)
+
+A constant condition either owns its value array or reads external memory that the user may
+overwrite between two calls of the setter.  What the setter imposes is decided by the content of
+that memory *at the time of the call*. -/
+
+/-- where a constant condition reads its value: its own array (numbers + which entries are `±inf`)
+or the external array in `slot` -/
+inductive ValRef (K : Type) where
+  | own (v : List Int → K) (inf : List Int → Bool)
+  | linked (slot : Nat)
+
+/-- the external memory at the time of a setter call: per slot the numbers and the `±inf` flags -/
+structure Store (K : Type) where
+  val : Nat → List Int → K
+  inf : Nat → List Int → Bool
+
+def ValRef.val (st : Store K) : ValRef K → List Int → K
+  | .own v _ => v
+  | .linked k => st.val k
+
+def ValRef.inf (st : Store K) : ValRef K → List Int → Bool
+  | .own _ i => i
+  | .linked k => st.inf k
+
+/-- a condition whose value may be linked (only the constant conditions have `link_value`; for
+`MixedBC` the linked array is the coefficient `value`, `const` stays its own) -/
+inductive LCond (K : Type) where
+  | dirichlet (v : ValRef K)
+  | neumann (v : ValRef K)
+  | curvature (v : ValRef K)
+  | robin (g : ValRef K) (b : List Int → K)
+  | fixed (c : Cond K)
+
+/-- the condition the setter imposes while the external memory is `st` -/
+def LCond.resolve [DecidableEq K] (dx : K) (st : Store K) : LCond K → Cond K
+  | .dirichlet v => .dirichlet (v.val st)
+  | .neumann v => .neumann (v.val st)
+  | .curvature v => .curvature (v.val st)
+  | .robin g b => Cond.robin dx (fun vi => if g.inf st vi then .inf else .fin (g.val st vi)) b
+  | .fixed c => c
+
+structure LAxisSpec (K : Type) where
+  dx : K
+  lo : Bool × LCond K
+  hi : Bool × LCond K
+
+def LAxisSpec.resolve [DecidableEq K] (st : Store K) (s : LAxisSpec K) : AxisSpec K :=
+  ⟨s.dx, (s.lo.1, s.lo.2.resolve s.dx st), (s.hi.1, s.hi.2.resolve s.dx st)⟩
+
+/-- `BoundariesList.set_ghost_cells` called while the external memory is `st` -/
+def setBoundariesLinked [DecidableEq K] (shape : List Nat) (rank : Nat) (specs : List (LAxisSpec K))
+    (st : Store K) (a : List Int → K) : List Int → K :=
+  setBoundaries shape rank (specs.map (·.resolve st)) a
+
 end
 end PdeVerif.BC
